@@ -697,3 +697,394 @@ Proof.
 Qed.
 
 End Parser.
+
+(* ---- post-processing: balance_pairs ---- *)
+Lemma upd_nth_l_length {A} (f : A -> A) : forall n (l : list A), length (upd_nth_l n f l) = length l.
+Proof. unfold upd_nth_l. induction n as [|n IH]; intros [|a l]; cbn; try reflexivity. rewrite IH. reflexivity. Qed.
+Lemma upd_nth_l_nth {A} (f : A -> A) : forall n (l : list A) k,
+  nth_error (upd_nth_l n f l) k = if Nat.eqb k n then option_map f (nth_error l n) else nth_error l k.
+Proof.
+  unfold upd_nth_l. induction n as [|n IH]; intros [|a l] k; cbn.
+  - destruct (Nat.eqb k 0); destruct k; reflexivity.
+  - destruct k; reflexivity.
+  - destruct (Nat.eqb k (S n)); destruct k; reflexivity.
+  - destruct k as [|k]; [reflexivity|]. cbn. apply IH.
+Qed.
+Lemma In_upd_nth_l_P {A} (P : A -> Prop) (f : A -> A) (Hf : forall x, P x -> P (f x)) n (l : list A) :
+  Forall P l -> Forall P (upd_nth_l n f l).
+Proof.
+  intros H. apply Forall_forall. intros x Hx. rewrite Forall_forall in H.
+  apply In_upd_nth_l in Hx. destruct Hx as [I|(y & I & ->)]; [exact (H x I) | exact (Hf y (H y I))].
+Qed.
+
+Lemma dget_safe ds i : 0 <= i < len ds -> safe (dget ds i) (fun d => In d ds).
+Proof.
+  intros H. unfold safe, dget. cbv zeta. assert (X : (i <? 0) = false) by lia. rewrite !X.
+  destruct (nth_error ds (Z.to_nat i)) eqn:E; [exact (nth_error_In _ _ E)|]. apply nth_error_None in E. unfold len in H. lia.
+Qed.
+Lemma dget_wrap_safe ds i : - len ds <= i < len ds -> safe (dget ds i) (fun d => In d ds).
+Proof.
+  intros H. destruct (Z_lt_ge_dec i 0) as [N|N]; [|apply dget_safe; lia].
+  unfold safe, dget. cbv zeta. assert (X : (i <? 0) = true) by lia. rewrite X. assert (Y : (i + len ds <? 0) = false) by lia. rewrite Y.
+  destruct (nth_error ds (Z.to_nat (i + len ds))) eqn:E; [exact (nth_error_In _ _ E)|]. apply nth_error_None in E. unfold len in *. lia.
+Qed.
+Lemma jget_safe l i : 0 <= i < len l -> safe (jget l i) (fun v => nth_error l (Z.to_nat i) = Some v).
+Proof.
+  intros H. unfold safe, jget, tb. cbv zeta. assert (X : (i <? 0) = false) by lia. rewrite !X.
+  destruct (nth_error l (Z.to_nat i)) eqn:E; [reflexivity|]. apply nth_error_None in E. unfold len in H. lia.
+Qed.
+
+(* the jump table: one entry per processed delimiter, each between 0 and its own index *)
+Definition JI (jumps : list Z) (c : Z) : Prop :=
+  len jumps = c /\ forall i v, nth_error jumps i = Some v -> 0 <= v <= Z.of_nat i.
+
+Lemma JI_snoc jumps c : JI jumps c -> JI (jumps ++ [0]) (c + 1).
+Proof.
+  intros [L H]. split; [rewrite len_snoc; lia|]. intros i v E.
+  destruct (Nat.lt_ge_cases i (length jumps)) as [Lt|Ge].
+  - rewrite nth_error_app1 in E by exact Lt. exact (H i v E).
+  - rewrite nth_error_app2 in E by exact Ge. destruct (i - length jumps)%nat as [|k]; cbn in E; [injection E as <-; lia | destruct k; discriminate].
+Qed.
+Lemma JI_jset jumps c i v : JI jumps c -> 0 <= i -> 0 <= v <= i -> JI (jset jumps i v) c.
+Proof.
+  intros [L H] Hi Hv. unfold jset. split; [unfold len in *; rewrite upd_nth_l_length; exact L|].
+  intros k w E. rewrite upd_nth_l_nth in E. destruct (Nat.eqb k (Z.to_nat i)) eqn:K.
+  - apply Nat.eqb_eq in K. subst k. destruct (nth_error jumps (Z.to_nat i)); cbn in E; [injection E as <-; lia | discriminate].
+  - exact (H k w E).
+Qed.
+
+Definition OB (ob : list (Z * list Z)) : Prop := forall m idx, -1 <= ob_get ob m idx.
+Lemma OB_nil : OB [].
+Proof. intros m idx. cbn. lia. Qed.
+Lemma find_filter_none {A} (p : A -> bool) l : find p (filter (fun x => negb (p x)) l) = None.
+Proof. induction l as [|a l IH]; cbn; [reflexivity|]. destruct (p a) eqn:E; cbn; [exact IH | rewrite E; exact IH]. Qed.
+Lemma find_filter_other {A} (p q : A -> bool) l : (forall x, p x = true -> q x = false) ->
+  find p (filter (fun x => negb (q x)) l) = find p l.
+Proof.
+  intros H. induction l as [|a l IH]; cbn; [reflexivity|]. destruct (q a) eqn:E; cbn.
+  - destruct (p a) eqn:Pa; [rewrite (H a Pa) in E; discriminate | exact IH].
+  - destruct (p a); [reflexivity | exact IH].
+Qed.
+Lemma OB_set ob m idx v : OB ob -> -1 <= v -> OB (ob_set ob m idx v).
+Proof.
+  intros H Hv m' idx'. unfold ob_set, ob_get at 1. cbv zeta. cbn [find fst].
+  destruct (m =? m') eqn:E.
+  - assert (m = m') by lia. subst m'.
+    set (arr0 := match find (fun kv => fst kv =? m) ob with Some (_, a) => a | None => [-1; -1; -1; -1; -1; -1] end).
+    assert (A0 : forall k, -1 <= nth k arr0 (-1)).
+    { intros k. unfold arr0. destruct (find (fun kv => fst kv =? m) ob) as [[x a]|] eqn:F.
+      - specialize (H m (Z.of_nat k)). unfold ob_get in H. rewrite F in H. rewrite Nat2Z.id in H. exact H.
+      - do 7 (destruct k as [|k]; [cbn; lia|]). cbn. lia. }
+    destruct (nth_error (upd_nth_l (Z.to_nat idx) (fun _ => v) arr0) (Z.to_nat idx')) eqn:N.
+    + rewrite (nth_error_nth _ _ _ N). rewrite upd_nth_l_nth in N. destruct (Nat.eqb _ _).
+      * destruct (nth_error arr0 (Z.to_nat idx)); cbn in N; [injection N as <-; exact Hv | discriminate].
+      * specialize (A0 (Z.to_nat idx')). rewrite (nth_error_nth _ _ _ N) in A0. exact A0.
+    + rewrite nth_overflow; [lia|]. apply nth_error_None. exact N.
+  - cbn. assert (X : (m =? m') = false) by lia.
+    replace (fst (m, upd_nth_l (Z.to_nat idx) (fun _ => v) (match find (fun kv => fst kv =? m) ob with Some (_, a) => a | None => [-1; -1; -1; -1; -1; -1] end)) =? m') with false by (cbn; lia).
+    rewrite (find_filter_other (fun kv : Z * list Z => fst kv =? m') (fun kv => fst kv =? m)); [exact (H m' idx')|].
+    intros x Hx. lia.
+Qed.
+
+Lemma find_opener_d_safe ds jumps closer c : JI jumps c -> c <= len ds ->
+  forall fuel o mn, o < c -> -1 <= mn ->
+  safe (find_opener_d fuel ds jumps closer o mn) (fun r => match r with Some x => mn < x <= o | None => True end).
+Proof.
+  intros [JL JH] CL. induction fuel as [|f IH]; intros o mn Ho Hm; cbn [find_opener_d]; [apply safe_ok; exact I|].
+  sstep; [apply safe_ok; exact I|].
+  eapply safe_bind; [apply dget_safe; lia|]. intros opener _ _.
+  eapply safe_bind; [apply jget_safe; lia|]. intros j _ Hj. apply JH in Hj.
+  assert (REC : safe (find_opener_d f ds jumps closer (o - (j + 1)) mn) (fun r => match r with Some x => mn < x <= o | None => True end)).
+  { eapply safe_weaken; [apply IH; lia|]. intros [x|] _ Hx; [lia | exact I]. }
+  sstep; [exact REC|]. sstep; [|exact REC]. cbv zeta. sstep; [apply safe_ok; lia | exact REC].
+Qed.
+
+(* what balance_pairs establishes for a delimiter list of length n pointing into N tokens *)
+Definition DQ (N n : Z) (d : delim) : Prop := 0 <= d_token d < N /\ (d_end d = -1 \/ 0 <= d_end d < n).
+
+Lemma dupd_len ds i f : len (dupd ds i f) = len ds.
+Proof. unfold dupd, len. rewrite upd_nth_l_length. reflexivity. Qed.
+
+Lemma pd_loop_safe N : forall fuel ds jumps ob c h lt,
+  JI jumps c -> OB ob -> 0 <= h <= c -> Forall (DQ N (len ds)) ds ->
+  safe (pd_loop fuel ds jumps ob c h lt) (fun ds' => len ds' = len ds /\ Forall (DQ N (len ds)) ds').
+Proof.
+  induction fuel as [|f IH]; intros ds jumps ob c h lt HJ HO Hh HD; cbn [pd_loop]; [apply safe_ok; split; [reflexivity | exact HD]|].
+  sstep; [apply safe_ok; split; [reflexivity | exact HD]|].
+  eapply safe_bind; [apply dget_safe; lia|]. intros closer _ _. cbv zeta.
+  pose proof (JI_snoc _ _ HJ) as HJ1. set (jumps1 := jumps ++ [0]) in *.
+  eapply safe_bind; [apply dget_safe; lia|]. intros header _ _.
+  set (h1 := if negb (d_marker header =? d_marker closer) || negb (lt =? d_token closer - 1) then c else h).
+  assert (Hh1 : 0 <= h1 <= c) by (unfold h1; destruct (_ || _); lia).
+  sstep; [apply IH; try assumption; lia|].
+  pose proof (HO (d_marker closer) ((if d_open closer then 3 else 0) + d_length closer mod 3)) as HM.
+  set (mn := ob_get ob (d_marker closer) ((if d_open closer then 3 else 0) + d_length closer mod 3)) in *.
+  eapply safe_bind; [apply jget_safe; destruct HJ1 as [L _]; lia|]. intros jh _ Hjh. apply (proj2 HJ1) in Hjh.
+  eapply safe_bind; [apply (find_opener_d_safe ds jumps1 closer (c + 1) HJ1); lia|]. intros m _ Hm.
+  destruct m as [o|].
+  - eapply safe_bind with (Q := fun lj => 0 <= lj <= o).
+    { sstep; [|apply safe_ok; lia]. eapply safe_bind; [apply dget_safe; lia|]. intros prev _ _.
+      sstep; [|apply safe_ok; lia]. eapply safe_bind; [apply jget_safe; destruct HJ1 as [L _]; lia|]. intros jp _ Hjp.
+      apply (proj2 HJ1) in Hjp. apply safe_ok. lia. }
+    intros lj _ Hlj.
+    eapply safe_weaken; [apply IH|].
+    + apply JI_jset; [apply JI_jset; [exact HJ1 | lia | lia] | lia | lia].
+    + apply OB_set; [exact HO | exact HM].
+    + lia.
+    + rewrite !dupd_len. unfold dupd. apply In_upd_nth_l_P; [|apply In_upd_nth_l_P; [|exact HD]].
+      * intros x [A B]. split; [exact A | right; cbn; lia].
+      * intros x [A B]. split; [exact A | exact B].
+    + intros ds' _ [A B]. rewrite !dupd_len in A, B. split; [exact A | exact B].
+  - apply IH; try assumption; [|lia].
+    match goal with |- OB (if ?b then _ else _) => destruct b end; apply OB_set; try assumption; lia.
+Qed.
+
+Lemma process_delimiters_safe N ds : Forall (DQ N (len ds)) ds ->
+  safe (process_delimiters ds) (fun ds' => len ds' = len ds /\ Forall (DQ N (len ds)) ds').
+Proof.
+  intros H. unfold process_delimiters. destruct ds as [|d ds]; [apply safe_ok; split; [reflexivity | exact H]|].
+  apply pd_loop_safe; [split; [reflexivity | intros i v E; destruct i; discriminate E] | exact OB_nil | lia | exact H].
+Qed.
+
+(* ---- post-processing: strikethrough, emphasis ---- *)
+Lemma tget_safe tokens i : - len tokens <= i < len tokens -> safe (tget tokens i) (fun _ => True).
+Proof.
+  intros H. unfold safe, tget. cbv zeta. destruct (i <? 0) eqn:N.
+  - assert (Y : (i + len tokens <? 0) = false) by lia. rewrite Y.
+    destruct (nth_error tokens (Z.to_nat (i + len tokens))) eqn:E; [exact I|]. apply nth_error_None in E. unfold len in *. lia.
+  - rewrite N. destruct (nth_error tokens (Z.to_nat i)) eqn:E; [exact I|]. apply nth_error_None in E. unfold len in *. lia.
+Qed.
+Lemma tupd_len tokens i f : len (tupd tokens i f) = len tokens.
+Proof. unfold tupd, update_nth_tok', len. cbv zeta. rewrite upd_nth_l_length. reflexivity. Qed.
+
+Definition LN (N x : Z) : Prop := -1 <= x < N /\ 0 < N.
+
+Lemma DQ_in N ds d : Forall (DQ N (len ds)) ds -> In d ds -> DQ N (len ds) d.
+Proof. intros H I. rewrite Forall_forall in H. exact (H d I). Qed.
+
+Lemma st_pass1_safe N : forall fuel ds tokens i lone, len tokens = N -> Forall (DQ N (len ds)) ds -> 0 <= i ->
+  Forall (LN N) lone ->
+  safe (st_pass1 fuel ds tokens i lone) (fun r => len (fst r) = N /\ Forall (LN N) (snd r)).
+Proof.
+  induction fuel as [|f IH]; intros ds tokens i lone HN HD Hi HLo; cbn [st_pass1]; [apply safe_ok; split; assumption|].
+  sstep; [apply safe_ok; split; assumption|].
+  eapply safe_bind; [apply dget_safe; lia|]. intros sd _ Isd. destruct (DQ_in _ _ _ HD Isd) as [T1 E1].
+  sstep; [apply IH; try assumption; lia|].
+  assert (EV : 0 <= d_end sd < len ds) by lia.
+  eapply safe_bind; [apply dget_safe; exact EV|]. intros ed _ Ied. destruct (DQ_in _ _ _ HD Ied) as [T2 _].
+  eapply safe_bind; [apply tget_safe; lia|]. intros _t1 _ _. cbv zeta.
+  eapply safe_bind; [apply tget_safe; rewrite tupd_len; lia|]. intros _t2 _ _.
+  eapply safe_bind; [apply tget_safe; rewrite !tupd_len; lia|]. intros before _ _.
+  apply IH; [rewrite !tupd_len; exact HN | exact HD | lia|].
+  destruct (_ && _); [|exact HLo]. apply Forall_app. split; [exact HLo|]. constructor; [split; lia | constructor].
+Qed.
+
+Lemma count_s_close_bound : forall fuel tokens j, j <= count_s_close fuel tokens j /\ (count_s_close fuel tokens j <= len tokens \/ count_s_close fuel tokens j = j).
+Proof.
+  induction fuel as [|f IH]; intros tokens j; cbn [count_s_close]; [lia|].
+  destruct (j <? len tokens) eqn:E; [|lia]. destruct (nth_error tokens (Z.to_nat j)); [|lia].
+  destruct (str_eqb _ _); [|lia]. specialize (IH tokens (j + 1)). lia.
+Qed.
+
+Lemma st_pass2_safe N : forall lone tokens, len tokens = N -> Forall (LN N) lone ->
+  safe (st_pass2 lone tokens) (fun t => len t = N).
+Proof.
+  induction lone as [|i rest IH]; intros tokens HN HL; cbn [st_pass2]; [apply safe_ok; exact HN|]. cbv zeta.
+  inversion HL as [|x y [Hx H0] Hy]; subst.
+  pose proof (count_s_close_bound (S (length tokens)) tokens (i + 1)) as [B1 B2].
+  set (j := count_s_close (S (length tokens)) tokens (i + 1) - 1) in *.
+  sstep; [|apply IH; [reflexivity | exact Hy]].
+  eapply safe_bind; [apply tget_safe; lia|]. intros ti _ _.
+  eapply safe_bind; [apply tget_safe; lia|]. intros tj _ _.
+  apply IH; [rewrite !tupd_len; reflexivity | exact Hy].
+Qed.
+
+Lemma strike_post_safe N ds tokens : len tokens = N -> Forall (DQ N (len ds)) ds ->
+  safe (strike_post ds tokens) (fun t => len t = N).
+Proof.
+  intros HN HD. unfold strike_post.
+  eapply safe_bind; [apply (st_pass1_safe N); [exact HN | exact HD | lia | constructor]|]. intros [tokens1 lone] _ [A B]. cbn [fst snd] in *.
+  apply st_pass2_safe; [exact A|]. apply Forall_rev. exact B.
+Qed.
+
+Lemma em_pass_safe N : forall fuel ds tokens i, len tokens = N -> Forall (DQ N (len ds)) ds -> i < len ds ->
+  safe (em_pass fuel ds tokens i) (fun t => len t = N).
+Proof.
+  induction fuel as [|f IH]; intros ds tokens i HN HD Hi; cbn [em_pass]; [apply safe_ok; exact HN|].
+  sstep; [apply safe_ok; exact HN|].
+  eapply safe_bind; [apply dget_safe; lia|]. intros sd _ Isd. destruct (DQ_in _ _ _ HD Isd) as [T1 E1].
+  sstep; [apply IH; try assumption; lia|].
+  assert (EV : 0 <= d_end sd < len ds) by lia.
+  eapply safe_bind; [apply dget_safe; exact EV|]. intros ed _ Ied. destruct (DQ_in _ _ _ HD Ied) as [T2 _].
+  eapply safe_bind with (Q := fun b => b = true -> 0 < i /\ d_end sd + 1 < len ds).
+  { sstep; [|apply safe_ok; discriminate]. eapply safe_bind; [apply dget_safe; lia|]. intros p _ Ip.
+    destruct (DQ_in _ _ _ HD Ip) as [_ EP].
+    sstep; [|apply safe_ok; discriminate].
+    eapply safe_bind; [apply dget_safe; lia|]. intros q _ _. apply safe_ok. intros _. lia. }
+  intros isStrong _ HS. cbv zeta.
+  eapply safe_bind; [apply tget_safe; lia|]. intros _t1 _ _.
+  eapply safe_bind; [apply tget_safe; rewrite tupd_len; lia|]. intros _t2 _ _.
+  destruct isStrong; [|apply IH; [rewrite !tupd_len; exact HN | exact HD | lia]].
+  destruct (HS eq_refl) as [S1 S2].
+  eapply safe_bind; [apply dget_safe; lia|]. intros p _ Ip. destruct (DQ_in _ _ _ HD Ip) as [TP _].
+  eapply safe_bind; [apply dget_safe; lia|]. intros q _ Iq. destruct (DQ_in _ _ _ HD Iq) as [TQ _].
+  eapply safe_bind; [apply tget_safe; rewrite !tupd_len; lia|]. intros _a _ _.
+  eapply safe_bind; [apply tget_safe; rewrite !tupd_len; lia|]. intros _b _ _.
+  apply IH; [rewrite !tupd_len; exact HN | exact HD | lia].
+Qed.
+
+(* ---- the post-processing chain ---- *)
+Definition D1 (st : istate) : Prop := forall l, In l (i_dstore st) -> Forall (DQ (len (i_tokens st)) (len l)) l.
+
+Lemma D1_nth st id : D1 st -> Forall (DQ (len (i_tokens st)) (len (nth id (i_dstore st) []))) (nth id (i_dstore st) []).
+Proof.
+  intros H. destruct (Nat.lt_ge_cases id (length (i_dstore st))) as [L|G].
+  - apply H. apply nth_In. exact L.
+  - rewrite nth_overflow by exact G. constructor.
+Qed.
+
+Lemma each_meta_safe (f : istate -> nat -> res istate) (INV : istate -> Prop)
+      (Hf : forall s id, INV s -> safe (f s id) INV) : forall metas st, INV st -> safe (each_meta f metas st) INV.
+Proof.
+  induction metas as [|[id|] rest IH]; intros st H; cbn [each_meta]; [apply safe_ok; exact H| |apply IH; exact H].
+  eapply safe_bind; [apply Hf; exact H|]. intros st' _ H'. apply IH. exact H'.
+Qed.
+Lemma on_all_delims_safe (f : istate -> nat -> res istate) (INV : istate -> Prop)
+      (Hf : forall s id, INV s -> safe (f s id) INV) st : INV st -> safe (on_all_delims f st) INV.
+Proof.
+  intros H. unfold on_all_delims. eapply safe_bind; [apply Hf; exact H|]. intros st1 _ H1.
+  (* the meta list walked is the one of the state before the first call *)
+  apply each_meta_safe; assumption.
+Qed.
+
+Lemma r2_balance_pairs_safe st : D1 st -> safe (r2_balance_pairs st) D1.
+Proof.
+  intros H. unfold r2_balance_pairs. apply on_all_delims_safe; [|exact H]. clear st H. intros s id H.
+  eapply safe_bind; [apply (process_delimiters_safe (len (i_tokens s))); apply D1_nth; exact H|]. intros ds _ [A B].
+  apply safe_ok. intros l Hl. cbn in Hl. apply In_upd_nth_l in Hl. destruct Hl as [I|(y & I & ->)]; [exact (H l I)|].
+  cbn. rewrite A. exact B.
+Qed.
+
+Lemma r2_strikethrough_safe st : D1 st -> safe (r2_strikethrough st) D1.
+Proof.
+  intros H. unfold r2_strikethrough. apply on_all_delims_safe; [|exact H]. clear st H. intros s id H.
+  eapply safe_bind; [apply (strike_post_safe (len (i_tokens s))); [reflexivity | apply D1_nth; exact H]|]. intros ts _ A.
+  apply safe_ok. intros l Hl. cbn in *. rewrite A. exact (H l Hl).
+Qed.
+
+Lemma r2_emphasis_safe st : D1 st -> safe (r2_emphasis st) D1.
+Proof.
+  intros H. unfold r2_emphasis. apply on_all_delims_safe; [|exact H]. clear st H. intros s id H. cbv zeta.
+  eapply safe_bind; [apply (em_pass_safe (len (i_tokens s))); [reflexivity | apply D1_nth; exact H | lia]|]. intros ts _ A.
+  apply safe_ok. intros l Hl. cbn in *. rewrite A. exact (H l Hl).
+Qed.
+
+Definition pair_rule (n : str) : bool := str_eqb n n_balance_pairs || str_eqb n n_strikethrough || str_eqb n n_emphasis.
+(* the order of the post-processing chain: nothing that reads delimiters runs after fragments_join *)
+Fixpoint order_ok (names : list str) : bool :=
+  match names with
+  | [] => true
+  | n :: r => if str_eqb n n_fragments_join then forallb (fun m => negb (pair_rule m)) r else order_ok r
+  end.
+
+Lemma run_rules2_tail_safe : forall names st, forallb (fun m => negb (pair_rule m)) names = true ->
+  safe (run_rules2 names st) (fun _ => True).
+Proof.
+  induction names as [|n r IH]; intros st H; cbn [run_rules2]; [apply safe_ok; exact I|].
+  cbn [forallb] in H. apply Bool.andb_true_iff in H. destruct H as [H1 H2].
+  unfold pair_rule in H1. unfold iapply2.
+  destruct (str_eqb n n_balance_pairs); [discriminate H1|]. destruct (str_eqb n n_strikethrough); [discriminate H1|].
+  destruct (str_eqb n n_emphasis); [discriminate H1|].
+  destruct (str_eqb n n_fragments_join); cbn [bind r2_fragments_join]; apply IH; exact H2.
+Qed.
+
+Lemma run_rules2_safe : forall names st, order_ok names = true -> D1 st -> safe (run_rules2 names st) (fun _ => True).
+Proof.
+  induction names as [|n r IH]; intros st H HD; cbn [run_rules2]; [apply safe_ok; exact I|].
+  cbn [order_ok] in H. unfold iapply2.
+  destruct (str_eqb n n_balance_pairs) eqn:N1.
+  { assert (X : str_eqb n n_fragments_join = false) by (apply str_eqb_eq in N1; subst n; reflexivity). rewrite X in H.
+    eapply safe_bind; [apply r2_balance_pairs_safe; exact HD|]. intros st' _ HD'. apply IH; assumption. }
+  destruct (str_eqb n n_strikethrough) eqn:N2.
+  { assert (X : str_eqb n n_fragments_join = false) by (apply str_eqb_eq in N2; subst n; reflexivity). rewrite X in H.
+    eapply safe_bind; [apply r2_strikethrough_safe; exact HD|]. intros st' _ HD'. apply IH; assumption. }
+  destruct (str_eqb n n_emphasis) eqn:N3.
+  { assert (X : str_eqb n n_fragments_join = false) by (apply str_eqb_eq in N3; subst n; reflexivity). rewrite X in H.
+    eapply safe_bind; [apply r2_emphasis_safe; exact HD|]. intros st' _ HD'. apply IH; assumption. }
+  destruct (str_eqb n n_fragments_join); cbn [bind r2_fragments_join]; [apply run_rules2_tail_safe; exact H | apply IH; assumption].
+Qed.
+
+(* ---- ParserInline.parse never raises ---- *)
+Section Knot.
+Context (cfg : icfg) (rf cf lt : str -> str).
+Context (NOLINKIFY : ic_linkify cfg = false) (ORDER : order_ok (ic_rules2 cfg) = true).
+
+Lemma PI_init src env tokens : PI (istate_init src env tokens).
+Proof.
+  unfold istate_init. split; [cbn; lia|]. split; [cbn; lia|]. split; [|constructor].
+  intros l Hl d Hd. cbn in Hl. destruct Hl as [<-|[]]. contradiction Hd.
+Qed.
+
+Lemma PI_D1 st : PI st -> D1 st.
+Proof.
+  intros (_ & _ & DDs & _) l Hl. apply Forall_forall. intros d Hd. destruct (DDs l Hl d Hd) as [A B].
+  split; [exact A | left; exact B].
+Qed.
+
+Lemma inline_parse_with_safe F (HF : FN F) src env tokens :
+  safe (inline_parse_with cfg rf cf lt F src env tokens) (fun _ => True).
+Proof.
+  unfold inline_parse_with.
+  eapply safe_bind; [apply (inline_tokenize_safe cfg rf cf lt NOLINKIFY F HF); apply PI_init|]. intros st1 _ (HP1 & _).
+  eapply safe_bind; [apply run_rules2_safe; [exact ORDER | apply PI_D1; exact HP1]|]. intros st2 _ _. apply safe_ok. exact I.
+Qed.
+
+Lemma ifs_FN : forall depth, FN (ifs cfg rf cf lt depth).
+Proof.
+  induction depth as [|d IH]; cbn [ifs].
+  - split; [intros st _; exact I|]. split; [intros st _ _; exact I | intros src env; exact I].
+  - cbv zeta. split; [|split].
+    + intros st HP. cbn [f_tokenize]. apply (inline_tokenize_safe cfg rf cf lt NOLINKIFY _ IH). exact HP.
+    + intros st HP HL. cbn [f_skip]. apply (skip_token_safe cfg rf cf lt NOLINKIFY _ IH); assumption.
+    + intros src env. cbn [f_parse]. apply inline_parse_with_safe. exact IH.
+Qed.
+
+Theorem inline_parse_no_raise src env tokens : forall e, inline_parse cfg rf cf lt src env tokens <> Raise e.
+Proof. unfold inline_parse. eapply safe_nr. apply inline_parse_with_safe. apply ifs_FN. Qed.
+
+End Knot.
+
+(* ---- the order hypothesis holds for Ruler-compiled chains ---- *)
+From MD Require Import Model.Ruler.
+
+Lemma notpair_order_ok : forall l, forallb (fun m => negb (pair_rule m)) l = true -> order_ok l = true.
+Proof.
+  induction l as [|n r IH]; intros H; [reflexivity|]. cbn [forallb] in H. apply Bool.andb_true_iff in H. destruct H as [_ H].
+  cbn [order_ok]. destruct (str_eqb n n_fragments_join); [exact H | exact (IH H)].
+Qed.
+Lemma forallb_filter {A} (p q : A -> bool) l : forallb p l = true -> forallb p (filter q l) = true.
+Proof.
+  induction l as [|a l IH]; intros H; [reflexivity|]. cbn [forallb] in H. apply Bool.andb_true_iff in H. destruct H as [H1 H2].
+  cbn [filter]. destruct (q a); [cbn [forallb]; rewrite H1; exact (IH H2) | exact (IH H2)].
+Qed.
+Lemma order_ok_filter (q : str -> bool) : forall l, order_ok l = true -> order_ok (filter q l) = true.
+Proof.
+  induction l as [|n r IH]; intros H; [reflexivity|]. cbn [order_ok] in H. cbn [filter].
+  destruct (str_eqb n n_fragments_join) eqn:E.
+  - destruct (q n); [cbn [order_ok]; rewrite E; apply forallb_filter; exact H | apply notpair_order_ok, forallb_filter; exact H].
+  - destruct (q n); [cbn [order_ok]; rewrite E; exact (IH H) | exact (IH H)].
+Qed.
+
+Theorem ruler_chain_order_ok (rs : list (@rule str)) : order_ok (map rfn rs) = true -> order_ok (compile_chain rs []) = true.
+Proof.
+  unfold compile_chain. induction rs as [|r rs IH]; intros H; [reflexivity|].
+  cbn [map order_ok] in H. cbn [filter]. destruct (str_eqb (rfn r) n_fragments_join) eqn:E.
+  - destruct (renabled r && in_chain [] r).
+    + cbn [map order_ok]. rewrite E. clear IH. induction rs as [|x xs IHx]; [reflexivity|].
+      cbn [map forallb] in H. apply Bool.andb_true_iff in H. destruct H as [H1 H2]. cbn [filter].
+      destruct (renabled x && in_chain [] x); [cbn [map forallb]; rewrite H1; exact (IHx H2) | exact (IHx H2)].
+    + apply notpair_order_ok. clear IH. induction rs as [|x xs IHx]; [reflexivity|].
+      cbn [map forallb] in H. apply Bool.andb_true_iff in H. destruct H as [H1 H2]. cbn [filter].
+      destruct (renabled x && in_chain [] x); [cbn [map forallb]; rewrite H1; exact (IHx H2) | exact (IHx H2)].
+  - destruct (renabled r && in_chain [] r); [cbn [map order_ok]; rewrite E; exact (IH H) | exact (IH H)].
+Qed.
